@@ -195,6 +195,12 @@ func runC08CancelEngine(c *fw.Ctx, id string, parallel bool, at time.Duration, s
 		return
 	}
 	late := ret.Sub(cancelledAt)
+	if late == 0 && err == nil && res != nil {
+		// the run reached its natural end at the very (virtual) instant of the cancellation: which of the two timers
+		// fires first is not decided by anything the property states (a declared tie; seen about once in eight runs)
+		c.Count("cancel_tie_with_completion", 1)
+		return
+	}
 	c.Count("cancellations_judged", 1)
 	c.Nontrivial(fmt.Sprintf("cancel/%s/%s/silent%v", engName(parallel), cancelClass(at, p), silent))
 	if !errors.Is(err, context.Canceled) {
@@ -244,6 +250,10 @@ func runC08CancelReal(c *fw.Ctx, id string, v refmatch.Variant, at time.Duration
 	}
 	late := res.End.Sub(cancelledAt)
 	tag := fmt.Sprintf("%s %s cancel@%v", id, v.Name, at)
+	if late == 0 && res.Err == nil && res.Run != nil {
+		c.Count("cancel_tie_with_completion", 1) // see runC08CancelEngine
+		return
+	}
 	c.Count("cancellations_judged", 1)
 	c.Nontrivial(fmt.Sprintf("cancel-real/%s/%v", v.Name, at > 0))
 	if res.Err == nil || !errors.Is(res.Err, context.Canceled) {
@@ -581,7 +591,11 @@ func checkC08() fw.Check {
 			}
 			for _, v := range refmatch.Variants {
 				for _, nb := range netBehaviours() {
-					for _, w := range wins {
+					ws := wins
+					if tier != "thorough" && nb.name == "silence" {
+						ws = append([]window{{250, 255}}, wins...) // the last TTL a byte can hold: loop counters must not wrap
+					}
+					for _, w := range ws {
 						v, nb, w := v, nb, w
 						if nb.name == "valid-duplicate-stream-dest" && v.Serial {
 							continue
